@@ -185,6 +185,12 @@ func (f *fixed) GetCode(cidVal cid.CID, text string) (charcode.Code, bool) {
 		// the CMap has no code for this CID (possible for CID 0)
 		return 0, false
 	}
+	if _, seen := f.text[code]; !seen {
+		// The width of CID 0 is set when the encoder is made, but no text
+		// has been recorded for its code yet: the caller has to go through
+		// Encode, which stores the text.
+		return 0, false
+	}
 	return code, true
 }
 
